@@ -430,3 +430,68 @@ pub fn comp_of(k: Kind) -> Option<Comp> {
         _ => None,
     }
 }
+
+/// Cross family: every typed record with <= k RDATA deviations under every combination of
+/// class x cache-flush x TTL (owner name cycling through the name domain), one record per packet,
+/// section cycling; plus every ordered pair of base records inside one section and across sections.
+pub fn cross_family(k: usize, wide: bool) -> Vec<RefPacket> {
+    let mut out = Vec::new();
+    let names = name_domain();
+    let mut i = 0usize;
+    for sch in SCHEMAS {
+        for vals in deviations(sch, k, wide) {
+            if !vals_wire_representable(sch, &vals) {
+                continue;
+            }
+            for c in CLASSES {
+                for cf in [false, true] {
+                    for t in TTLS {
+                        let r = RefRR {
+                            name: names[i % names.len()].clone(),
+                            class: c,
+                            cache_flush: cf,
+                            ttl: t,
+                            rdata: RefRData::Typed { code: sch.code, vals: vals.clone() },
+                        };
+                        let mut p = RefPacket { id: i as u16, flags: F_QR, ..Default::default() };
+                        match i % 3 {
+                            0 => p.answers.push(r),
+                            1 => p.authority.push(r),
+                            _ => p.additional.push(r),
+                        }
+                        if i % 7 == 0 {
+                            p.opt = Some(opt_family()[i % 4].clone());
+                        }
+                        i += 1;
+                        out.push(p);
+                    }
+                }
+            }
+        }
+    }
+    let base: Vec<RefRR> = SCHEMAS.iter().map(base_rr).collect();
+    for a in &base {
+        for b in &base {
+            for shape in 0..3 {
+                let mut p = RefPacket { id: 0x5150, flags: F_QR | F_RA, ..Default::default() };
+                match shape {
+                    0 => {
+                        p.answers.push(a.clone());
+                        p.answers.push(b.clone());
+                    }
+                    1 => {
+                        p.answers.push(a.clone());
+                        p.additional.push(b.clone());
+                    }
+                    _ => {
+                        p.authority.push(a.clone());
+                        p.additional.push(b.clone());
+                        p.opt = Some(opt_family()[1].clone());
+                    }
+                }
+                out.push(p);
+            }
+        }
+    }
+    out
+}
